@@ -25,7 +25,7 @@ def gen_cases(rng, tier):
             srcs.insert(rng.randrange(len(srcs)), {"arg": rng.choice(["toolongname.bas", "x.extension", "verylongname12.dat"]), "content": {"pat": "41", "len": 10}})
         cases.append({"is_fd": rng.random() < 0.5, "verbose": rng.random() < 0.3, "sources": srcs, "old": rng.choice([None, None, None, 0, 100, 1310720, 2621440, 3000000])})
     # names that spell the keys of the documented rules, without any extension: they are 'other files'
-    keys = [{"arg": a, "content": {"pat": "41", "len": 10 + k}} for k, a in enumerate(["bas", "BIN", "txt", "Bat", "auto", "bas.bas", "auto.bat", "AUTO.txt", "bat.auto", "bin.", "x.bas,a"])]
+    keys = [{"arg": a, "content": {"pat": "41", "len": 10 + k}} for k, a in enumerate(["bas", "BIN", "txt", "Bat", "auto", "bas.bas", "auto.bat", "AUTO.txt", "bat.auto", "bin.", "x.bas,a", "noauto.bat", "my.auto.bat", "xbas", "atxt", "Auto.Bat,a", "t.txt,a"])]
     for is_fd in (True, False):
         cases.append({"is_fd": is_fd, "verbose": is_fd, "sources": keys})
     # more files than a catalogue holds: the 113th is refused on side 0 (catalogue full) and goes to side 1
